@@ -13,6 +13,7 @@ import (
 	"strconv"
 
 	"github.com/ohler55/ojg/alt"
+	"github.com/ohler55/ojg/gen"
 
 	"verif/harness/absval"
 )
@@ -110,6 +111,184 @@ type diffLine struct {
 	RA   reflObs  `json:"ra"`
 	RB   reflObs  `json:"rb"`
 	O    []ignObs `json:"o"`
+	// XS (gen line only): what Diff returned without ignore paths for the SAME pair built as simple data ("ab", "ba"),
+	// and XG the same for the gen data; present when the two forms have identical projections but answer differently.
+	// The specification demands one reading of int-versus-equal-float for both representations (Diff.tla A1').
+	XS map[string][]any `json:"xs,omitempty"`
+	XG map[string][]any `json:"xg,omitempty"`
+}
+
+// ---- aliasing builds: the two arguments share memory wherever their values allow it ----
+//
+// Equal container subtrees (anywhere in a or b) are ONE Go object (the same map, the same slice); where an array of a
+// and the array at the same location of b are one a proper prefix of the other, both are slices of one backing array
+// (b = append(a, x) with spare capacity, b = a[:n]).  The values the calls see are the same as in the separate
+// builds (the logged projections say so), only the memory layout differs.
+type aliasBuilder struct {
+	gen  bool
+	r    *salt
+	memo map[string]any
+	// shared counts the places where memory is shared; 0 = the build is no different from the separate builds
+	shared int
+}
+
+func canon(v any) string {
+	b, _ := json.Marshal(v)
+	return string(b)
+}
+
+func (ab *aliasBuilder) leaf(v abs) any {
+	if ab.gen {
+		if g := toGen(v); g != nil {
+			return g
+		}
+		return nil
+	}
+	return toSimple(v, ab.r)
+}
+
+func (ab *aliasBuilder) mkArr(elems []any, spare int) any {
+	if ab.gen {
+		a := make(gen.Array, len(elems), len(elems)+spare)
+		for i, e := range elems {
+			if e != nil {
+				a[i] = e.(gen.Node)
+			}
+		}
+		return a
+	}
+	a := make([]any, len(elems), len(elems)+spare)
+	copy(a, elems)
+	return a
+}
+
+func (ab *aliasBuilder) mkObj(keys []any, vals []any) any {
+	if ab.gen {
+		o := make(gen.Object, len(keys))
+		for i, k := range keys {
+			if vals[i] != nil {
+				o[k.(string)] = vals[i].(gen.Node)
+			} else {
+				o[k.(string)] = nil
+			}
+		}
+		return o
+	}
+	o := make(map[string]any, len(keys))
+	for i, k := range keys {
+		o[k.(string)] = vals[i]
+	}
+	return o
+}
+
+func (ab *aliasBuilder) one(v abs) any {
+	t := v["t"]
+	if t != "arr" && t != "obj" {
+		return ab.leaf(v)
+	}
+	key := canon(v)
+	if x, ok := ab.memo[key]; ok {
+		ab.shared++
+		return x
+	}
+	l, _ := v["v"].([]any)
+	vals := make([]any, len(l))
+	for i, e := range l {
+		vals[i] = ab.one(e.(abs))
+	}
+	var x any
+	if t == "arr" {
+		x = ab.mkArr(vals, 2)
+	} else {
+		ks, _ := v["k"].([]any)
+		x = ab.mkObj(ks, vals)
+	}
+	ab.memo[key] = x
+	return x
+}
+
+func reslice(x any, n int) any {
+	switch t := x.(type) {
+	case []any:
+		return t[:n]
+	case gen.Array:
+		return t[:n]
+	}
+	panic("reslice")
+}
+
+func (ab *aliasBuilder) pair(a, b abs) (any, any) {
+	if canon(a) == canon(b) {
+		x := ab.one(a)
+		if t := a["t"]; t == "arr" || t == "obj" {
+			ab.shared++
+		}
+		return x, x
+	}
+	if a["t"] == "arr" && b["t"] == "arr" {
+		la, _ := a["v"].([]any)
+		lb, _ := b["v"].([]any)
+		n := len(la)
+		if len(lb) < n {
+			n = len(lb)
+		}
+		prefix := len(la) != len(lb)
+		for i := 0; i < n && prefix; i++ {
+			prefix = canon(la[i]) == canon(lb[i])
+		}
+		if prefix {
+			long := la
+			if len(lb) > len(la) {
+				long = lb
+			}
+			vals := make([]any, len(long))
+			for i, e := range long {
+				vals[i] = ab.one(e.(abs))
+			}
+			full := ab.mkArr(vals, 1)
+			ab.shared++
+			return reslice(full, len(la)), reslice(full, len(lb))
+		}
+		va, vb := make([]any, len(la)), make([]any, len(lb))
+		for i := range la {
+			if i < n {
+				va[i], vb[i] = ab.pair(la[i].(abs), lb[i].(abs))
+			} else {
+				va[i] = ab.one(la[i].(abs))
+			}
+		}
+		for i := n; i < len(lb); i++ {
+			vb[i] = ab.one(lb[i].(abs))
+		}
+		return ab.mkArr(va, 0), ab.mkArr(vb, 0)
+	}
+	if a["t"] == "obj" && b["t"] == "obj" {
+		ma, mb := objMap(a), objMap(b)
+		ka, _ := a["k"].([]any)
+		kb, _ := b["k"].([]any)
+		va, vb := make([]any, len(ka)), make([]any, len(kb))
+		done := map[string]any{}
+		for i, k := range ka {
+			if o, ok := mb[k.(string)]; ok {
+				va[i], done[k.(string)] = ab.pair(ma[k.(string)].(abs), o.(abs))
+			} else {
+				va[i] = ab.one(ma[k.(string)].(abs))
+			}
+		}
+		for i, k := range kb {
+			if _, ok := ma[k.(string)]; ok {
+				vb[i] = done[k.(string)]
+			} else {
+				vb[i] = ab.one(mb[k.(string)].(abs))
+			}
+		}
+		return ab.mkObj(ka, va), ab.mkObj(kb, vb)
+	}
+	return ab.one(a), ab.one(b)
+}
+
+func noIgn(x, y, x2, y2 any) map[string][]any {
+	return map[string][]any{"ab": observe(x, y, nil).D, "ba": observe(y2, x2, nil).D}
 }
 
 func toPath(p any) alt.Path {
@@ -183,12 +362,25 @@ func (b *byKey) Len() int           { return len(b.k) }
 func (b *byKey) Less(i, j int) bool { return b.k[i] < b.k[j] }
 func (b *byKey) Swap(i, j int)      { b.k[i], b.k[j] = b.k[j], b.k[i]; b.v[i], b.v[j] = b.v[j], b.v[i] }
 
+const aliasIgs = 6
+
 func sameObs(x, y diffLine) bool {
 	x.F, y.F = "", ""
+	x.XS, x.XG, y.XS, y.XG = nil, nil, nil, nil
+	if len(x.O) < len(y.O) { // an aliased line carries the observations of the first ignore sets only
+		y.O = y.O[:len(x.O)]
+	}
 	// Compare may legitimately pick different members of Diff's set in the two forms: keep both lines then
 	bx, _ := json.Marshal(x)
 	by, _ := json.Marshal(y)
 	return bytes.Equal(bx, by)
+}
+
+func genAny(v any) any {
+	if g := toGen(v); g != nil {
+		return g
+	}
+	return nil
 }
 
 func match(f, t any) (m, pan bool) {
@@ -223,10 +415,26 @@ func diffExec(args []string) {
 				c.Salt = int64(n)
 			}
 			var lines []diffLine
-			for _, form := range []string{"simple", "gen"} {
+			// the aliased builds are run only where memory can be shared at all
+			pre := &aliasBuilder{r: &salt{s: uint64(c.Salt)}, memo: map[string]any{}}
+			pre.pair(c.A.(abs), c.B.(abs))
+			for _, form := range []string{"simple", "gen", "alias", "galias"} {
 				// fresh values for every call group: nothing here is supposed to mutate them, but a
 				// defect that did must not leak into the next observation
+				var alx, aly [2]any
+				nal := 0
 				build := func() (any, any) {
+					if form == "alias" || form == "galias" {
+						// two builds per form (the second one for the Reflexive partner), then reused: the projections logged
+						// first would show a call that modified its arguments
+						if nal < 2 {
+							ab := &aliasBuilder{gen: form == "galias", r: &salt{s: uint64(c.Salt)}, memo: map[string]any{}}
+							alx[nal], aly[nal] = ab.pair(c.A.(abs), c.B.(abs))
+							nal++
+							return alx[nal-1], aly[nal-1]
+						}
+						return alx[0], aly[0]
+					}
 					if form == "gen" {
 						// untyped nil for a null root (a nil gen.Node interface converts to nil any)
 						var x, y any
@@ -241,6 +449,16 @@ func diffExec(args []string) {
 					r := &salt{s: uint64(c.Salt)}
 					return toSimple(c.A, r), toSimple(c.B, r)
 				}
+				igsets := c.Igs
+				if form == "alias" || form == "galias" {
+					// the aliased builds: with the first ignore sets only
+					if pre.shared == 0 {
+						continue
+					}
+					if len(igsets) > aliasIgs {
+						igsets = igsets[:aliasIgs]
+					}
+				}
 				x, y := build()
 				tl := diffLine{F: form, Salt: c.Salt, A: project(x), B: project(y), O: []ignObs{}}
 				x2, y2 := build()
@@ -249,7 +467,7 @@ func diffExec(args []string) {
 				tl.MAB, p1 = match(x, y)
 				tl.MBA, p2 = match(y, x)
 				tl.MPan = p1 || p2
-				for _, set := range c.Igs {
+				for _, set := range igsets {
 					orders := [][]any{set}
 					if len(set) == 2 {
 						orders = append(orders, []any{set[1], set[0]})
@@ -265,10 +483,30 @@ func diffExec(args []string) {
 				}
 				lines = append(lines, tl)
 			}
-			// identical observations on identical projections are judged once (f = "both")
-			if len(lines) == 2 && sameObs(lines[0], lines[1]) {
+			// one reading of the numeric kinds for both representations: when the two forms have the same projections
+			// the gen line also carries what the simple form answered without ignore paths
+			// (only an int against a float can be read in two ways: pairs without a float leaf are skipped)
+			if bytes.Contains(line, []byte(`"flt"`)) && canon(lines[0].A) == canon(lines[1].A) && canon(lines[0].B) == canon(lines[1].B) {
+				r := &salt{s: uint64(c.Salt)}
+				xs := noIgn(toSimple(c.A, r), toSimple(c.B, r), toSimple(c.A, r), toSimple(c.B, r))
+				ga, gb, ga2, gb2 := genAny(c.A), genAny(c.B), genAny(c.A), genAny(c.B)
+				xg := noIgn(ga, gb, ga2, gb2)
+				if canon(xs) != canon(xg) {
+					lines[1].XS, lines[1].XG = xs, xg
+				}
+			}
+			// identical observations on identical projections are judged once (f = "both"); an aliased build that
+			// answers exactly like the separately built form is not judged again
+			rest := lines[2:]
+			lines = lines[:2]
+			for _, al := range rest {
+				if !sameObs(al, lines[map[string]int{"alias": 0, "galias": 1}[al.F]]) {
+					lines = append(lines, al)
+				}
+			}
+			if lines[1].XS == nil && sameObs(lines[0], lines[1]) {
 				lines[0].F = "both"
-				lines = lines[:1]
+				lines = append(lines[:1], lines[2:]...)
 			}
 			for _, tl := range lines {
 				if e := enc.Encode(tl); e != nil {
@@ -290,7 +528,7 @@ type rgen struct {
 	r *rand.Rand
 }
 
-var rkeys = []string{"a", "b", "c", "k1", "", "x y", "0"}
+var rkeys = []string{"a", "b", "c", "k1", "", "x y", "0", "a.b", "a[0]"} // the last two print like the paths a->b and a->[0]
 
 func (g *rgen) leaf() abs {
 	switch g.r.Intn(11) {
